@@ -34,8 +34,8 @@ func (c *ctx) budget() budget {
 	case c.a.Extra == "search":
 		return budget{hashN: 60000, hashK: 0, bloomReps: 8, bloomBig: 10000, bloomKReps: 0, hasN: 4000, tblN: 5000, tblK: 0, dbN: 160}
 	case c.a.Thorough():
-		return budget{hashN: 400000, hashK: 4000, bloomReps: 100, bloomBig: 10000, bloomKReps: 4, hasN: 20000, tblN: 40000, tblK: 160, dbN: 2500}
+		return budget{hashN: 400000, hashK: 4000, bloomReps: 300, bloomBig: 10000, bloomKReps: 4, hasN: 20000, tblN: 40000, tblK: 160, dbN: 2500}
 	default:
-		return budget{hashN: 20000, hashK: 900, bloomReps: 3, bloomBig: 3000, bloomKReps: 1, hasN: 2000, tblN: 1200, tblK: 44, dbN: 40}
+		return budget{hashN: 100000, hashK: 900, bloomReps: 10, bloomBig: 4000, bloomKReps: 1, hasN: 2000, tblN: 2000, tblK: 44, dbN: 60}
 	}
 }
